@@ -15,6 +15,8 @@ use tokio::net::{TcpListener, TcpStream};
 
 pub type Log = Arc<Mutex<Vec<Value>>>;
 pub static SEQ: AtomicU64 = AtomicU64::new(0);
+/// C03: when set (scenario option "log_out"), every flush of a session is logged as an `out` event with the exact bytes written.
+pub static LOG_OUT: std::sync::atomic::AtomicBool = std::sync::atomic::AtomicBool::new(false);
 
 pub fn log_event(log: &Log, mut v: Value) {
     let mut g = log.lock();
@@ -41,6 +43,10 @@ pub struct Backend {
     pub shadow: Mutex<HashMap<String, String>>, // auth_query answers: user -> md5 hash
     pub open_conns: Mutex<BTreeMap<u64, Value>>, // live sessions: id -> last known state
     pub max_open: AtomicU64,
+    pub host: String, // address the listener binds (default 127.0.0.1; C07 uses 127.0.0.x aliases so that admin BAN <host> can tell servers apart)
+    pub hang_match: Mutex<Option<String>>, // C07: a simple query containing this text is swallowed and never answered
+    pub busy: Mutex<BTreeMap<u64, String>>, // C10: session id -> the statement it is executing right now (reported in every `cancel` event)
+    pub gates: Mutex<std::collections::HashSet<String>>, // C10: opened gates; a statement with /*mock:gate=NAME*/ is answered only after NAME was opened
 }
 
 fn put_msg(out: &mut BytesMut, code: u8, body: &[u8]) {
@@ -329,11 +335,20 @@ enum Flow {
     Hang,
 }
 
+/// C03 scripting state of one session (directives segs= / segd= / copy_in / copy_reply_raw=).
+#[derive(Default)]
+struct C03Script {
+    segs: Vec<usize>,               // cut the NEXT flush into separate TCP writes at these byte offsets
+    seg_delay_ms: u64,              // pause between the pieces (default 2 ms)
+    copy_reply_raw: Option<Vec<u8>>, // bytes to emit instead of `C Z` / `E Z` when CopyDone/CopyFail arrives
+}
+
 struct Conn {
     be: Arc<Backend>,
     s: Sess,
     stream: TcpStream,
     out: BytesMut,
+    c03: C03Script,
 }
 
 impl Conn {
@@ -461,14 +476,33 @@ impl Conn {
         if let Some(ms) = d.get("sleep") {
             tokio::time::sleep(std::time::Duration::from_millis(ms.parse().unwrap_or(0))).await;
         }
+        if let Some(g) = d.get("gate") {
+            // C10: a statement that runs until the harness opens its gate (step backend/open_gate); gives up after 15 s
+            let t0 = std::time::Instant::now();
+            while !self.be.gates.lock().contains(g) && t0.elapsed().as_secs() < 15 {
+                tokio::time::sleep(std::time::Duration::from_millis(2)).await;
+            }
+        }
         if d.contains_key("hang") {
             return Flow::Hang;
         }
         if d.contains_key("close") {
             return Flow::Close;
         }
+        // C03 (additive): segs=a:b:c cuts the next flush into TCP writes at these offsets (segd=ms pause);
+        // copy_reply_raw=<hex> replaces the reply to CopyDone/CopyFail; copy_in (with raw=) enters COPY IN mode.
+        if let Some(sg) = d.get("segs") {
+            self.c03.segs = sg.split(':').filter_map(|x| x.trim().parse().ok()).collect();
+            self.c03.seg_delay_ms = d.get("segd").and_then(|x| x.parse().ok()).unwrap_or(2);
+        }
+        if let Some(h) = d.get("copy_reply_raw") {
+            self.c03.copy_reply_raw = Some(crate::util::unhex(h));
+        }
         if let Some(h) = d.get("raw") {
             self.out.put_slice(&crate::util::unhex(h));
+            if d.contains_key("copy_in") {
+                self.s.copy_in = true;
+            }
             return Flow::Continue;
         }
         if d.contains_key("notice") {
@@ -485,6 +519,49 @@ impl Conn {
         }
         if words.is_empty() {
             put_msg(&mut self.out, b'I', &[]);
+            return Flow::Continue;
+        }
+        // C09 (additive): an auth_query (a statement mentioning pg_shadow) is answered from Backend.shadow with the
+        // columns (usename, passwd): one row for the shadow user whose quoted name occurs in the statement, else no row.
+        if up.contains("PG_SHADOW") {
+            let hit = {
+                let g = self.be.shadow.lock();
+                let mut ks: Vec<String> = g.keys().cloned().collect();
+                ks.sort();
+                ks.into_iter().find(|u| sql.contains(&format!("'{}'", u))).map(|u| (u.clone(), g[&u].clone()))
+            };
+            if simple {
+                let mut b = BytesMut::new();
+                b.put_i16(2);
+                for name in ["usename", "passwd"] {
+                    b.put_slice(&cstr(name));
+                    b.put_i32(0);
+                    b.put_i16(0);
+                    b.put_i32(25);
+                    b.put_i16(-1);
+                    b.put_i32(-1);
+                    b.put_i16(0);
+                }
+                put_msg(&mut self.out, b'T', &b);
+            }
+            match hit {
+                Some((u, h)) => {
+                    // a value "name\tpasswd" overrides the usename column (a row for somebody else)
+                    let (u, h) = match h.split_once('\t') {
+                        Some((a, b)) => (a.to_string(), b.to_string()),
+                        None => (u, h),
+                    };
+                    let mut b = BytesMut::new();
+                    b.put_i16(2);
+                    for v in [u.as_str(), h.as_str()] {
+                        b.put_i32(v.len() as i32);
+                        b.put_slice(v.as_bytes());
+                    }
+                    put_msg(&mut self.out, b'D', &b);
+                    self.complete("SELECT 1");
+                }
+                None => self.complete("SELECT 0"),
+            }
             return Flow::Continue;
         }
         // failed transaction: only COMMIT/ROLLBACK/END allowed
@@ -511,6 +588,12 @@ impl Conn {
                 self.complete("ROLLBACK");
             }
             "SET" => {
+                // C12 (additive): for SET, comments are stripped outside string literals only, so that a value
+                // containing "/*" survives (strip_comments is not quote-aware).
+                let sql = {
+                    let q = strip_comments_q(raw);
+                    if q.len() >= 3 && q[..3].eq_ignore_ascii_case("SET") { q } else { sql.clone() }
+                };
                 let mut rest = sql[3..].trim_start();
                 let mut local = false;
                 let upr = rest.to_ascii_uppercase();
@@ -549,6 +632,9 @@ impl Conn {
                     };
                     let scs_off = self.s.effective("standard_conforming_strings").map(|v| v == "off").unwrap_or(false);
                     match parse_value(&val, scs_off) {
+                        // C12 (additive): a value starting with "!invalid!" is refused the way PostgreSQL refuses a value
+                        // that fails a GUC's check hook
+                        Some(v) if v.starts_with("!invalid!") => self.err("22023", "invalid value for parameter"),
                         Some(v) => {
                             if v.eq_ignore_ascii_case("default") && !val.trim_start().starts_with('\'') {
                                 self.set_guc(&name, None, local);
@@ -675,6 +761,28 @@ impl Conn {
             self.out.clear();
             return false;
         }
+        if LOG_OUT.load(Ordering::SeqCst) {
+            log_event(&self.be.log, json!({"who": self.be.name, "conn": self.s.id, "ev": "out", "nbytes": self.out.len(), "hex": hex(&self.out), "segs": self.c03.segs}));
+        }
+        if !self.c03.segs.is_empty() {
+            // C03: write the reply in pieces (separate TCP segments: TCP_NODELAY is on, short pause between them)
+            let mut cuts: Vec<usize> = self.c03.segs.iter().cloned().filter(|x| *x > 0 && *x < self.out.len()).collect();
+            cuts.sort();
+            cuts.dedup();
+            cuts.push(self.out.len());
+            self.c03.segs.clear();
+            let mut at = 0;
+            let mut ok = true;
+            for c in cuts {
+                ok = ok && self.stream.write_all(&self.out[at..c]).await.is_ok() && self.stream.flush().await.is_ok();
+                at = c;
+                if at < self.out.len() {
+                    tokio::time::sleep(std::time::Duration::from_millis(self.c03.seg_delay_ms)).await;
+                }
+            }
+            self.out.clear();
+            return ok;
+        }
         let ok = self.stream.write_all(&self.out).await.is_ok() && self.stream.flush().await.is_ok();
         self.out.clear();
         ok
@@ -721,7 +829,10 @@ async fn session(be: Arc<Backend>, mut stream: TcpStream) {
         // CancelRequest
         let pid = b.get_i32();
         let key = b.get_i32();
-        log_event(&be.log, json!({"who": be.name, "ev": "cancel", "pid": pid, "key": key}));
+        // C10 (additive fields): which sessions exist / are executing what at the instant the CancelRequest arrives
+        let busy: Vec<Value> = be.busy.lock().iter().map(|(k, v)| json!([k, v])).collect();
+        let open: Vec<u64> = be.open_conns.lock().keys().cloned().collect();
+        log_event(&be.log, json!({"who": be.name, "ev": "cancel", "pid": pid, "key": key, "busy": busy, "open": open}));
         return;
     }
     if code == 80877103 {
@@ -814,7 +925,7 @@ async fn session(be: Arc<Backend>, mut stream: TcpStream) {
         skip_until_sync: false,
         listens: vec![],
     };
-    let mut c = Conn { be: be.clone(), s, stream, out: BytesMut::new() };
+    let mut c = Conn { be: be.clone(), s, stream, out: BytesMut::new(), c03: C03Script::default() };
     log_event(&be.log, json!({"who": be.name, "conn": id, "ev": "ready", "pid": id as i32 + 1000, "key": (id as i32 + 1000) * 7 + 13}));
     c.publish_state();
     {
@@ -823,6 +934,7 @@ async fn session(be: Arc<Backend>, mut stream: TcpStream) {
     }
     let why = run_session(&mut c).await;
     be.open_conns.lock().remove(&id);
+    be.busy.lock().remove(&id);
     log_event(&be.log, json!({"who": be.name, "conn": id, "ev": "close", "why": why, "state": c.s.state()}));
 }
 
@@ -857,15 +969,35 @@ async fn run_session(c: &mut Conn) -> String {
         let mut raw = BytesMut::new();
         put_msg(&mut raw, code, &body);
         let mut b = &body[..];
+        // PostgreSQL in COPY IN mode: Flush and Sync are ignored, CopyData/CopyDone/CopyFail are
+        // the protocol; any other message aborts the COPY with an error and is NOT executed.
+        if c.s.copy_in && !matches!(code, b'd' | b'c' | b'f' | b'H' | b'S' | b'X') {
+            c.log_msg(code, json!({"raw": hex(&raw), "rejected_in_copy": true}));
+            c.s.copy_in = false;
+            c.err("08P01", "unexpected message type during COPY from stdin");
+            if code == b'Q' {
+                c.rfq();
+            } else {
+                c.s.skip_until_sync = true;
+            }
+            c.publish_state();
+            if !c.flush().await {
+                return "closed mid reply".into();
+            }
+            continue;
+        }
         let flow = match code {
             b'Q' => {
                 let q = read_cstr(&mut b);
+                c.be.busy.lock().insert(c.s.id, q.clone()); // C10
                 c.log_msg(code, json!({"sql": q, "raw": hex(&raw)}));
-                if mode == MODE_HANG {
+                let hm = c.be.hang_match.lock().clone();
+                if mode == MODE_HANG || hm.map(|m| q.contains(&m)).unwrap_or(false) {
                     Flow::Hang
                 } else {
                     let stmts = split_statements(&q);
                     let mut flow = Flow::Continue;
+                    let c12_snap = if c.s.txn == b'I' { Some(c.s.gucs.clone()) } else { None };
                     if stmts.is_empty() {
                         put_msg(&mut c.out, b'I', &[]);
                     }
@@ -881,6 +1013,13 @@ async fn run_session(c: &mut Conn) -> String {
                             break;
                         }
                     }
+                    // C12 (additive): a multi-statement simple Query is one implicit transaction: an "invalid value" error
+                    // (22023, only produced by the !invalid! marker) rolls back the SETs that preceded it in the message.
+                    if let Some(snap) = c12_snap {
+                        if c.s.txn == b'I' && last_error_code(&c.out).as_deref() == Some("22023") {
+                            c.restore_gucs(snap);
+                        }
+                    }
                     if matches!(flow, Flow::Continue) && !c.s.copy_in && !directives(&q).contains_key("raw") {
                         c.rfq();
                     }
@@ -893,7 +1032,12 @@ async fn run_session(c: &mut Conn) -> String {
             }
             b'c' | b'f' => {
                 c.log_msg(code, json!({"raw": hex(&raw)}));
-                if c.s.copy_in {
+                if c.s.copy_in && c.c03.copy_reply_raw.is_some() {
+                    // C03: scripted reply to CopyDone/CopyFail
+                    c.s.copy_in = false;
+                    let r = c.c03.copy_reply_raw.take().unwrap();
+                    c.out.put_slice(&r);
+                } else if c.s.copy_in {
                     c.s.copy_in = false;
                     if code == b'c' {
                         c.complete("COPY 1");
@@ -978,6 +1122,7 @@ async fn run_session(c: &mut Conn) -> String {
             b'E' => {
                 let portal = read_cstr(&mut b);
                 let q = c.s.portals.get(&portal).cloned();
+                c.be.busy.lock().insert(c.s.id, q.clone().unwrap_or_default()); // C10
                 c.log_msg(code, json!({"portal": portal, "sql": q, "raw": hex(&raw)}));
                 let mut flow = Flow::Continue;
                 if !c.s.skip_until_sync {
@@ -1051,6 +1196,7 @@ async fn run_session(c: &mut Conn) -> String {
                 if !c.out.is_empty() && !c.flush().await {
                     return "closed mid reply".into();
                 }
+                c.be.busy.lock().remove(&c.s.id); // C10: the statement (if any) has been answered
             }
             Flow::Close => return "mock close directive".into(),
             Flow::Hang => {
@@ -1067,6 +1213,73 @@ async fn run_session(c: &mut Conn) -> String {
     }
 }
 
+/// C12: SQLSTATE of the last ErrorResponse in the buffer (frames after it, e.g. ParameterStatus, are skipped over).
+fn last_error_code(out: &BytesMut) -> Option<String> {
+    let mut i = 0;
+    let mut code = None;
+    while i + 5 <= out.len() {
+        let l = i32::from_be_bytes([out[i + 1], out[i + 2], out[i + 3], out[i + 4]]) as usize;
+        if out[i] == b'E' && i + 1 + l <= out.len() {
+            let mut b = &out[i + 5..i + 1 + l];
+            code = None;
+            while !b.is_empty() && b[0] != 0 {
+                let k = b[0];
+                b = &b[1..];
+                let v = read_cstr(&mut b);
+                if k == b'C' {
+                    code = Some(v);
+                }
+            }
+        }
+        i += 1 + l;
+    }
+    code
+}
+
+/// C12: like strip_comments, but comment markers inside '...' literals are left alone.
+fn strip_comments_q(sql: &str) -> String {
+    let b = sql.as_bytes();
+    let mut out: Vec<u8> = Vec::new();
+    let mut i = 0;
+    while i < b.len() {
+        if b[i] == b'\'' {
+            let estr = i > 0 && (b[i - 1] == b'E' || b[i - 1] == b'e');
+            out.push(b[i]);
+            i += 1;
+            while i < b.len() {
+                if estr && b[i] == b'\\' && i + 1 < b.len() {
+                    out.push(b[i]);
+                    out.push(b[i + 1]);
+                    i += 2;
+                    continue;
+                }
+                out.push(b[i]);
+                if b[i] == b'\'' {
+                    if i + 1 < b.len() && b[i + 1] == b'\'' {
+                        out.push(b'\'');
+                        i += 2;
+                        continue;
+                    }
+                    i += 1;
+                    break;
+                }
+                i += 1;
+            }
+            continue;
+        }
+        if b[i] == b'/' && i + 1 < b.len() && b[i + 1] == b'*' {
+            match sql[i..].find("*/") {
+                Some(e) => i += e + 2,
+                None => i = b.len(),
+            }
+            continue;
+        }
+        out.push(b[i]);
+        i += 1;
+    }
+    String::from_utf8_lossy(&out).trim().to_string()
+}
+
 fn last_is_error(out: &BytesMut) -> bool {
     // walk the frames, return whether the last one is 'E'
     let mut i = 0;
@@ -1081,7 +1294,11 @@ fn last_is_error(out: &BytesMut) -> bool {
 
 impl Backend {
     pub async fn start(name: &str, log: Log, md5: Option<(String, String)>) -> Arc<Backend> {
-        let listener = TcpListener::bind("127.0.0.1:0").await.expect("bind mock backend");
+        Backend::start_at(name, log, md5, "127.0.0.1").await
+    }
+
+    pub async fn start_at(name: &str, log: Log, md5: Option<(String, String)>, host: &str) -> Arc<Backend> {
+        let listener = TcpListener::bind((host, 0u16)).await.expect("bind mock backend");
         let port = listener.local_addr().unwrap().port();
         let be = Arc::new(Backend {
             name: name.to_string(),
@@ -1094,6 +1311,10 @@ impl Backend {
             shadow: Mutex::new(HashMap::new()),
             open_conns: Mutex::new(BTreeMap::new()),
             max_open: AtomicU64::new(0),
+            host: host.to_string(),
+            hang_match: Mutex::new(None),
+            busy: Mutex::new(BTreeMap::new()),
+            gates: Mutex::new(std::collections::HashSet::new()),
         });
         let be2 = be.clone();
         tokio::spawn(async move {
@@ -1105,7 +1326,7 @@ impl Backend {
                     continue;
                 }
                 if listener.is_none() {
-                    match TcpListener::bind(("127.0.0.1", be2.port)).await {
+                    match TcpListener::bind((be2.host.as_str(), be2.port)).await {
                         Ok(l) => listener = Some(l),
                         Err(_) => {
                             tokio::time::sleep(std::time::Duration::from_millis(5)).await;
